@@ -304,6 +304,7 @@ HEAVY = ('I', 'L', 'S', 'E')
 EXPENSIVE = ('I', 'L', 'S', 'E', 'D', 'II')
 MEMO = {}
 MEMO_CAP = 30000
+ENABLE_OSC = False     # quadosc for oscillatory improper integrals (expensive; switched on by the identity-condition workload)
 
 
 class Ev:
@@ -463,6 +464,30 @@ class Ev:
             return -mp.inf if t[1][1] > 0 else mp.inf
         return self.ev(t, env)
 
+    def osc_omega(self, body, var, env):
+        """|omega| if the integrand contains sin/cos of arguments linear in var, all with the same frequency; else None"""
+        om = None
+        for sub in subterms(body):
+            if sub[0] == 'f' and sub[1] in ('sin', 'cos') and len(sub[2]) == 1 and var in free_vars(sub[2][0]):
+                arg = sub[2][0]
+                if contains_kind(arg, ('I', 'L', 'S', 'E', 'D', 'II', 'sk')):
+                    return None
+                try:
+                    vals = []
+                    for x in (0, 1, 3):
+                        env2 = dict(env)
+                        env2[var] = mpf(x)
+                        vals.append(self.ev(arg, env2))
+                except NotEvaluable:
+                    return None
+                w = vals[1] - vals[0]
+                if abs((vals[2] - vals[0]) - 3 * w) > mpf('1e-20') * max(1, abs(w)) or w == 0:
+                    return None
+                if om is not None and abs(abs(w) - om) > mpf('1e-20') * om:
+                    return None
+                om = abs(w)
+        return om
+
     def charge(self, n):
         self.n += n
         if self.n > self.budget:
@@ -525,7 +550,7 @@ class Ev:
             # values of expensive nodes are shared between calls (same shadow, same values of its free variables,
             # same precision): the output of one step is the input of the next
             try:
-                key = (t, mp.prec, tuple((v, self.lookup(v, env)) for v in sorted(free_vars(t))))
+                key = (t, mp.prec, ENABLE_OSC, tuple((v, self.lookup(v, env)) for v in sorted(free_vars(t))))
             except NotEvaluable:
                 key = None
             if key is not None:
@@ -594,10 +619,29 @@ class Ev:
             def f(x):
                 env2[var] = x
                 return self.ev(body, env2)
+            omega = None
+            if ENABLE_OSC and (mp.isinf(lo) or mp.isinf(hi)):
+                omega = self.osc_omega(body, var, env)
             self.nest += 1
             try:
-                v, err = mp.quad(f, [lo, hi], error=True)
-            except (ZeroDivisionError, OverflowError, ValueError) as e:
+                if omega is not None:
+                    # oscillatory integrand (one sin/cos frequency) over an infinite range: integrate between
+                    # zeros and extrapolate the alternating series (mpmath.quadosc); no error estimate, the
+                    # 30/60 digit cross-check decides whether the value is usable
+                    self.charge(3000)
+                    sgn = 1
+                    if lo > hi:
+                        lo, hi, sgn = hi, lo, -1
+                    if mp.isinf(lo) and mp.isinf(hi):
+                        v = mp.quadosc(lambda x: f(x) + f(-x), [0, mp.inf], omega=omega)
+                    elif mp.isinf(hi):
+                        v = mp.quadosc(f, [lo, mp.inf], omega=omega)
+                    else:
+                        v = mp.quadosc(lambda x: f(-x), [-hi, mp.inf], omega=omega)
+                    v, err = sgn * v, mpf(0)
+                else:
+                    v, err = mp.quad(f, [lo, hi], error=True)
+            except (ZeroDivisionError, OverflowError, ValueError, mp.NoConvergence) as e:
                 raise NotEvaluable('quad: ' + type(e).__name__)
             finally:
                 self.nest -= 1
